@@ -623,6 +623,26 @@ void setlinebuf(FILE *f) { setvbuf(f, nullptr, _IOLBF, 0); }
 // umask is process-wide and can only be read by writing it: a scheduling point, then the real call (the harness restores it after each run)
 mode_t umask(mode_t m) { if (!sim_active()) return (mode_t)RAW(SYS_umask, (long)m, 0, 0, 0, 0, 0); { SimScope s; sim_step(); sim_event("umask"); sched_point(SP_IO); } return (mode_t)RAW(SYS_umask, (long)m, 0, 0, 0, 0, 0); }
 
+// Case mapping follows the LC_CTYPE of the *calling program*. In a Turkish or Azeri locale 'i' and 'I' are not each other's case; the harness
+// keeps its own locale and answers the library the way such a process's libc would.
+int toupper(int c) { if (sim_active() && G.w.ctype_tr && c == 'i') return 'i'; return REAL(toupper)(c); }
+int tolower(int c) { if (sim_active() && G.w.ctype_tr && c == 'I') return 'I'; return REAL(tolower)(c); }
+// compiled with optimisation, toupper()/tolower() are table lookups through these two
+extern "C" const __int32_t **__ctype_toupper_loc(void) noexcept {
+    static __thread const __int32_t *ptr; static __int32_t tab[384]; static bool init = false;
+    const __int32_t **real = REAL(__ctype_toupper_loc)();
+    if (!(sim_active() && G.w.ctype_tr)) return real;
+    if (!init) { for (int i = -128; i < 256; i++) tab[i + 128] = (*real)[i]; tab['i' + 128] = 'i'; init = true; }
+    ptr = tab + 128; return &ptr;
+}
+extern "C" const __int32_t **__ctype_tolower_loc(void) noexcept {
+    static __thread const __int32_t *ptr; static __int32_t tab[384]; static bool init = false;
+    const __int32_t **real = REAL(__ctype_tolower_loc)();
+    if (!(sim_active() && G.w.ctype_tr)) return real;
+    if (!init) { for (int i = -128; i < 256; i++) tab[i + 128] = (*real)[i]; tab['I' + 128] = 'I'; init = true; }
+    ptr = tab + 128; return &ptr;
+}
+
 // ---------------------------------------------------------------- calls that wait for somebody else
 unsigned sleep(unsigned n) { if (!sim_active()) return REAL(sleep)(n); blocks("sleep"); return 0; }
 int usleep(useconds_t n) { if (!sim_active()) return REAL(usleep)(n); blocks("usleep"); return 0; }
